@@ -31,6 +31,29 @@ class SymConnector(NumpyConnector):
             j += a.shape[1]
         return out
 
+    def calculate_interferometer_on_fermionic_fock_space(self, matrix, cutoff):
+        # the NumpyConnector binds the compiled kernel here; run its Python source on the facade instead
+        from piquasso._simulators.connectors.numpy_ import connections as _npc
+        fn = _npc.calculate_interferometer_on_fermionic_fock_space.py_func
+        g = fn.__globals__
+        saved = g["np"]
+        g["np"] = xnp
+        try:
+            return fn(matrix, cutoff)
+        finally:
+            g["np"] = saved
+
+    def calculate_interferometer_on_fock_space(self, interferometer, helper_indices):
+        from piquasso._simulators.connectors.numpy_ import interferometer as _npi
+        fn = _npi.calculate_interferometer_on_fock_space.py_func
+        g = fn.__globals__
+        saved = g["np"]
+        g["np"] = xnp
+        try:
+            return fn(interferometer, helper_indices)
+        finally:
+            g["np"] = saved
+
     def powm(self, a, k):
         return xnp.linalg.matrix_power(a, k)
 
@@ -57,7 +80,41 @@ class SymConnector(NumpyConnector):
         raise xa.HarnessError("logm reached in symbolic execution (LAPACK; no contract stub installed)")
 
     def expm(self, m):
-        raise xa.HarnessError("expm reached in symbolic execution (LAPACK; no contract stub installed)")
+        """closed form per invariant block (connected components of the non-zero pattern): for a block B
+        with B^2 == -w^2 I (the solver checks that premise as an obligation) expm(B) = cos(w) I +
+        (sin(w)/w) B with w = sqrt(w^2), w != 0 recorded as an assumption; a zero 1x1 block gives 1."""
+        env = xa.cur()
+        m = xa.xarr(numpy.asarray(m, dtype=object))
+        n = m.shape[0]
+
+        def nz(v):
+            v = xa.SC.lift(v)
+            return not (v.is_const() and v.const() == 0)
+        comp = list(range(n))
+        for a in range(n):
+            for b in range(n):
+                if nz(m[a, b]) and comp[a] != comp[b]:
+                    old, new_ = comp[b], comp[a]
+                    comp = [new_ if c == old else c for c in comp]
+        out = xnp.zeros((n, n))
+        env.stubs.append("connector.expm -> per invariant block: cos(w) I + sin(w)/w B under the solver-checked premise B^2 == -w^2 I (w != 0 assumed)")
+        for cid in sorted(set(comp)):
+            idx = [k for k in range(n) if comp[k] == cid]
+            B = m[numpy.ix_(idx, idx)]
+            if len(idx) == 1 and not nz(B[0, 0]):
+                out[idx[0], idx[0]] = 1
+                continue
+            B2 = B @ B
+            w2 = -xa.SC.lift(B2[0, 0])
+            ident = xnp.identity(len(idx))
+            env.equal("expm premise on block %s: B^2 == -w^2 I" % (idx,), B2, ident * (-w2))
+            w = w2.sqrt()
+            c, s_ = env.trig(w)
+            R = ident * c + B * (s_ / w)
+            for a_, ia in enumerate(idx):
+                for b_, ib in enumerate(idx):
+                    out[ia, ib] = R[a_, b_]
+        return out
 
 
 def connector(env):
